@@ -128,7 +128,7 @@ def dense(case):
     return {k: v for k, v in res.items() if v != 0}
 
 
-def all_flows(case, g=None, max_flows=None, tilings=True):
+def all_flows(case, g=None, max_flows=None, tilings=True, spellings=False):
     """every loop order x {untiled, every tile size of one sampled rank} x intersection styles"""
     out, ops = case_spec(case)
     idxs = sorted(case["shapes"])
@@ -145,8 +145,12 @@ def all_flows(case, g=None, max_flows=None, tilings=True):
             for order in itertools.permutations(idx2):
                 if order.index(x + ".1") > order.index(x + ".0"):
                     continue
-                flows.append({"order": list(order), "style": "and",
-                              "tile": dict({"rank": x, "step": step}, **({"by_rankid": True} if g.random() < 0.4 else {}))})
+                extra = {"by_rankid": True} if g.random() < 0.4 else {}
+                if spellings and g.random() < 0.3:
+                    # the same uniform tiling spelled the other ways the library offers: a number of partitions
+                    # (`tensor / n`, needs declared shapes), or tile fibers with coordinates relative to their tile
+                    extra = {"div": True} if g.random() < 0.5 and case.get("route") != "noshape" else {"relative": True}
+                flows.append({"order": list(order), "style": "and", "tile": dict({"rank": x, "step": step}, **extra)})
         # dynamic partitioning: boundaries from a list / from another fiber's coordinates
         S = case["shapes"][x]
         for _ in range(2):
@@ -178,6 +182,14 @@ def tiled(case, tensors, flow):
                     sp = Fiber(sp, [1] * len(sp))
                     sp.getRankAttrs().setId(x)
                 t2[nm] = tensors[nm].splitNonUniform(sp, depth=idx.index(x))
+            elif tile.get("div"):
+                S = shapes[x]
+                n = -(-S // step)
+                d = idx.index(x)
+                # `t / n` partitions the top rank; the other operands get the same tile size the usual way
+                t2[nm] = tensors[nm] / n if d == 0 else tensors[nm].splitUniform(-(-S // n), depth=d)
+            elif tile.get("relative"):
+                t2[nm] = tensors[nm].splitUniform(step, depth=idx.index(x), relativeCoords=True)
             elif tile.get("by_rankid"):
                 t2[nm] = tensors[nm].splitUniform(step, rankid=x)          # the rank named, not its depth given
             else:
@@ -201,7 +213,8 @@ def untile_content(case, flow, zranks, content):
         env = dict(zip(zranks, pt))
         if tile:
             x = tile["rank"]
-            k = tuple(env.get(x + ".0", env.get(x)) if i == x else env[i] for i in out)
+            off = env.get(x + ".1", 0) if tile.get("relative") else 0
+            k = tuple((env[x + ".0"] + off if x + ".0" in env else env.get(x)) if i == x else env[i] for i in out)
         else:
             k = tuple(env[i] for i in out)
         res[k] = res.get(k, 0) + v
